@@ -49,7 +49,7 @@ BOUNDS = (
     "x want_generic x want_comments x omit_rdclass x relativize = 3 456 styles per zone on "
     "2 small zones (quick; 2^9 x 3 sub-product, generic styles sampled on the zone whose rdata "
     "names are in-zone) / 4 zones x 2 relativizations (thorough, all 3 456), plus 32 (quick) / 96 "
-    "(thorough) seeded styles on each further zone (quick 14 zones, thorough 100; every 4th zone "
+    "(thorough) seeded styles on each further zone (quick 14 zones, thorough 80; every 4th zone "
     "has only out-of-zone names in its rdata so that the RFC 3597 form is exercised beyond F7, "
     "every 4th a single TTL equal to the SOA minimum); read back with the zone's origin and, "
     "when $ORIGIN is emitted, also without one.  C09.roundtrip_api: all 16 keyword combinations "
@@ -462,7 +462,7 @@ def run(R):
     C = _Ctx(R)
     rng = R.rng
     nz_full = 2 if R.quick else 4
-    nz = 14 if R.quick else 100
+    nz = 14 if R.quick else 80
     zones = []
     for i in range(nz):
         if i < nz_full:
